@@ -365,7 +365,8 @@ def _unit_kwargs(iso, rnd, pressure=True, loading=True):
     if loading and rnd.random() < 0.35:
         kw.update(rnd.choice([{'loading_unit': 'mol'} if iso.loading_basis == 'molar' else {'loading_basis': 'molar', 'loading_unit': 'mmol'},
                               {'loading_basis': 'mass', 'loading_unit': 'g'}, {'material_unit': 'kg'} if iso.material_basis == 'mass' else
-                              {'material_basis': 'mass', 'material_unit': 'g'}]))
+                              {'material_basis': 'mass', 'material_unit': 'g'},
+                              {'material_basis': 'volume', 'material_unit': 'cm3'}, {'material_basis': 'molar', 'material_unit': 'mmol'}]))
     return kw
 
 
